@@ -58,8 +58,12 @@ def _cell(args):
         head = [x for x in s[:R] if x != 0]
         # the range finder applies qr_qua to an m x (R+P) sketch of rank min(rk, ...): rank deficient as soon as
         # the sketch is wider than rank(A) (C06 finding); repeated singular values hit the contraction (C05 finding)
-        degenerate = (len(set(x for x in s if x != 0)) < rk) or rk < min(m, R + P)
-        cls = "rank-deficient-sketch-or-repeated-values" if degenerate else "full-rank-sketch-simple-spectrum"
+        repeated = len(set(x for x in s if x != 0)) < rk
+        degenerate = repeated or rk < min(m, R + P)
+        # two recorded classes, as narrow as the defects: repeated singular values (contraction finding: orthonormality AND
+        # exactness are lost) and a sketch wider than rank(A) with simple values (orthonormality is lost in ~2 % of the draws,
+        # exactness never - it is judged strictly there)
+        cls = "repeated-values" if repeated else ("rank-deficient-sketch" if degenerate else "full-rank-sketch-simple-spectrum")
         nzs = [x for x in s if x != 0]
         cond_s = (max(nzs) / min(nzs)) if nzs else 1.0
         if not degenerate and cond_s >= 2.0 ** 10:
